@@ -147,17 +147,37 @@ def check_C03(ctx, rep):
 
 def check_sum(ctx, rep, f):
     """R7: Sum::sum is fold(zero, Add::add)"""
-    b = f.get("<TwoFloat as core::iter::Sum<T>>::sum")
+    check_fold_impl(rep, f, "Sum", "sum", "Add::add", 0.0, "R7", required=True)
+
+def check_product(ctx, rep, f, rule="R8p"):
+    """an `impl Product for TwoFloat`, when there is one, is fold(one, Mul::mul) (not in the crate today: the
+    rule is vacuous until such an impl appears, and the self-test keeps a positive and a negative example)"""
+    check_fold_impl(rep, f, "Product", "product", "Mul::mul", 1.0, rule, required=False)
+
+def check_fold_impl(rep, f, trait, meth, opname, unit, rule, required):
+    ident = "<TwoFloat as core::iter::%s<T>>::%s" % (trait, meth)
+    b = f.get(ident)
+    sym = "+" if meth == "sum" else "*"
+    inst = "%s::%s = fold(%s, %s)" % (trait, meth, "+0" if unit == 0.0 else "1", opname)
+    key = "%s-not-fold" % meth
     if b is None:
-        rep.fail("R7", "Sum::sum", "anchor-lost:Sum", "impl Sum<T> for TwoFloat not found (reason=anchor-lost)")
+        if required:
+            rep.fail(rule, "%s::%s" % (trait, meth), "anchor-lost:" + trait, "impl %s<T> for TwoFloat not found (reason=anchor-lost)" % trait)
+        else:
+            rep.ok(rule, "no impl %s for TwoFloat" % trait, detail="nothing to check", nontrivial=False)
         return
-    extra = ("<TwoFloat as num_traits::Zero>::zero", "<TwoFloat as core::default::Default>::default")
+    opfull = "core::ops::%s<TwoFloat,T>" % opname
+    extra = ("<TwoFloat as num_traits::Zero>::zero", "<TwoFloat as num_traits::One>::one", "<TwoFloat as core::default::Default>::default",
+             "<TwoFloat as core::convert::From<f64>>::from", "TwoFloat::from_f64")
+    uc = vg.f64c(unit); zero = vg.f64c(0.0)
+    def is_unit(init):
+        return tag(init) == "agg" and len(init[2]) == 2 and init[2][0] is uc and init[2][1] is zero
     try:
         t = H.tree_of(f, b, "op", inline_extra=extra)
     except vg.Unsupported as u:
         # an explicit loop `for item in iter { total = total + item }`: over-approximate the loop
-        ok, detail = sum_loop_form(f, b, extra)
-        rep.check(ok, "R7", "Sum::sum = fold(+0, Add::add)", "sum-not-fold", "Iterator::sum is not a left fold with + from zero (loop form): %s" % (detail,),
+        ok, detail = fold_loop_form(f, b, extra, is_unit, opfull)
+        rep.check(ok, rule, inst, key, "Iterator::%s is not a left fold with %s from %s (loop form): %s" % (meth, sym, unit, detail),
                   where=H.where(b), detail=detail)
         return
     ok = False
@@ -167,26 +187,24 @@ def check_sum(ctx, rep, f):
         if tag(v) == "call" and "fold" in v[1] and len(v) == 5:
             it, init, fn = v[2], v[3], v[4]
             detail = {"iter": it, "init": init, "f": fn}
-            zero = vg.f64c(0.0)
-            init_ok = (tag(init) == "agg" and len(init[2]) == 2 and init[2][0] is zero and init[2][1] is zero) or \
-                      (tag(init) == "call" and init[1] in ("<TwoFloat as core::default::Default>::default",))
-            fn_ok = tag(fn) == "fnitem" and fn[1].startswith("core::ops::Add::add<TwoFloat,T>") or (tag(fn) == "fnitem" and "core::ops::Add::add" in fn[1] and "TwoFloat" in fn[1])
+            init_ok = is_unit(init) or (unit == 0.0 and tag(init) == "call" and init[1] in ("<TwoFloat as core::default::Default>::default",))
+            fn_ok = tag(fn) == "fnitem" and fn[1].startswith(opfull) or (tag(fn) == "fnitem" and ("core::ops::" + opname) in fn[1] and "TwoFloat" in fn[1])
             if not fn_ok and tag(fn) == "agg" and fn[1][0] == "closure" and len(fn[2]) == 0:
                 # |acc, item| acc + item
                 cb = f.by_key.get(fn[1][1])
                 if cb is not None:
                     try:
                         ct = H.tree_of(f, cb, "op")
-                        fn_ok = ct[0] == "leaf" and tag(ct[1]) == "call" and ct[1][1].startswith("core::ops::Add::add<TwoFloat,T>") and ct[1][2] is P(1) and ct[1][3] is P(2)
+                        fn_ok = ct[0] == "leaf" and tag(ct[1]) == "call" and ct[1][1].startswith(opfull) and ct[1][2] is P(1) and ct[1][3] is P(2)
                     except vg.Unsupported:
                         fn_ok = False
             it_ok = it is P(0)
             ok = init_ok and fn_ok and it_ok
-    rep.check(ok, "R7", "Sum::sum = fold(+0, Add::add)", "sum-not-fold", "Iterator::sum is not a left fold with + from zero: %s" % (vg.show(t)[:400]),
+    rep.check(ok, rule, inst, key, "Iterator::%s is not a left fold with %s from %s: %s" % (meth, sym, unit, vg.show(t)[:400]),
               where=H.where(b), detail=detail)
 
-def sum_loop_form(f, b, extra):
-    """total = (0,0); loop { match iter.next() { Some(x) => total = total + x, None => break } }; total"""
+def fold_loop_form(f, b, extra, is_unit, opfull):
+    """total = unit; loop { match iter.next() { Some(x) => total = total op x, None => break } }; total"""
     ex = vg.Exec(f, vg.Policy(f, "op", inline_extra=extra, keep=H.primitive_idents(f), inline_private=True), loops="havoc")
     try:
         t = ex.run_body(b)
@@ -196,10 +214,9 @@ def sum_loop_form(f, b, extra):
     if len(ents) != 1:
         return False, "expected one loop"
     entry = ents[0][2]
-    zero = vg.f64c(0.0)
-    totals = {hv: l for l, (before, hv) in entry.items() if tag(before) == "agg" and len(before[2]) == 2 and before[2][0] is zero and before[2][1] is zero and hv[2] == TF}
+    totals = {hv: l for l, (before, hv) in entry.items() if is_unit(before) and hv[2] == TF}
     if len(totals) != 1:
-        return False, "no accumulator initialised to (+0, +0)"
+        return False, "no accumulator initialised to the unit"
     (T, tl), = totals.items()
     rets = []; backs = []
     for path, leaf in vg.leaves(t):
@@ -208,7 +225,7 @@ def sum_loop_form(f, b, extra):
         elif leaf[0] == "backedge":
             backs.append(dict(leaf[3]).get(tl))
     ok_ret = rets and all(r is T for r in rets)
-    ok_back = backs and all(tag(v) == "call" and v[1].startswith("core::ops::Add::add<TwoFloat,T>") and v[2] is T and "next" in vg.show(v[3]) for v in backs)
+    ok_back = backs and all(tag(v) == "call" and v[1].startswith(opfull) and v[2] is T and "next" in vg.show(v[3]) for v in backs)
     return bool(ok_ret and ok_back), {"returns": [vg.show(r)[:80] for r in rets], "iteration": [vg.show(v)[:160] for v in backs]}
 
 # ------------------------------------------------------------------ wrappers (R13) / assign (R14)
@@ -284,6 +301,7 @@ def check_C04(ctx, rep):
     rep.floor(R, len([o for o in rep.obl if o["rule"] == R]), 5, "mul bodies")
     check_wrappers(ctx, rep, f, ops=[("Mul", "mul")])
     check_fma(ctx, rep, f, "A")
+    check_product(ctx, rep, f)
     from . import rules_exact
     rules_exact.check_exact_C04(rep, f)
 
@@ -399,4 +417,6 @@ def check_C19(ctx, rep):
         exp = ("if", lt0, ("leaf", OP("add", TF, TF, r, mk("call", "TwoFloat::abs", c)), ()), ("leaf", r, ()))
         rep.check(t == exp, "R52", "TwoFloat::rem_euclid", "rem-euclid-table", "rem_euclid is not (r = a %% b; r < 0 ? r + |b| : r): %s" % vg.show(t)[:500],
                   where=H.where(b), detail="r=a%b; r<0 ? r+|b| : r")
+    from .rules_c10 import check_delegation_subset
+    check_delegation_subset(rep, f, {"rem_euclid", "div_euclid"}, rule="R52d")
     rep.floor("R51", len([o for o in rep.obl if o["rule"] == "R51"]), 3, "rem bodies")
